@@ -171,6 +171,38 @@ def model_only(sh, rng, n):
                         twin.tables[ti_dst].add_column(tcol)
                         flips += 1
                         sh.count('obs.fk_column_moved')
+        detached_fk = False
+        if rng.random() < 0.2:
+            # the column that holds a key is deleted from its table while the reference stays in the database (a dangling
+            # reference): rendering either still works or refuses with the library's own error, the same for the twin
+            cand = [r for r in db.refs if r.inline and len(r.col1) == 1 and len(r.col2) == 1 and r.col1[0].table is not r.col2[0].table
+                    and r.col1[0].table is not None and r.col2[0].table is not None]
+            if cand:
+                r = rng.choice(cand)
+                col = (r.col1 if r.type in ('>', '-') else r.col2)[0]
+                src = col.table
+                if len(src.columns) > 1 and not any(col in ix.subjects for ix in src.indexes) and \
+                        not any(q is not r and (col in q.col1 or col in q.col2) for q in db.refs):
+                    ti_src, ci = db.tables.index(src), src.columns.index(col)
+                    src.delete_column(col)
+                    twin.tables[ti_src].delete_column(twin.tables[ti_src].columns[ci])
+                    detached_fk = True
+                    sh.count('obs.fk_column_detached')
+        if detached_fk:
+            outs = []
+            for d_ in (db, twin):
+                try:
+                    outs.append(('OK', table_order(d_)))
+                except Exception as e:  # noqa
+                    cls, where = monitors.classify_exc(e)
+                    outs.append(('EXC', cls))
+                    if not monitors.is_library_error(e):
+                        sh.violation('render', f'model-only:sql-raises-with-dangling-reference:{cls}', f'{cls}: {e} at {where}',
+                                     {'kind': 'modelonly', 'text': surface.render(doc, 0, surface.CANON)}, {'suite': 'modelonly'})
+            if outs[0] != outs[1]:
+                sh.violation('det', 'model-only:dangling-reference-outcome-depends-on-earlier-rendering', f'{outs[0]} vs never rendered twin {outs[1]}',
+                             {'kind': 'modelonly', 'text': surface.render(doc, 0, surface.CANON)}, {'suite': 'modelonly'})
+            continue
         try:
             after = table_order(db)
             from pv.clone import clone
@@ -237,7 +269,7 @@ def run_shard(spec, tier, seed, budget_s):
                                    cyclic=drng.random() < 0.3)
         for origin in ('api', 'api2', 'parsed'):
             if origin == 'parsed':
-                db, err = parse(surface.render(doc, d))
+                db, err = parse(surface.render(doc, d, {'addr': 'explicit'} if 'alias-shadow' in doc.classes else None))
                 if err is not None:
                     continue
             else:
@@ -265,7 +297,7 @@ def run_shard(spec, tier, seed, budget_s):
         doc, edges = gen.graph_doc(rng, shape, nn, same_bare_names=same, cyclic=cyc)
         rng.shuffle(doc.order)
         suite = 'cyclic' if cyc else ('samebare' if same else 'dag.' + shape)
-        text = surface.render(doc, f'{seed}-{i}-{k}')
+        text = surface.render(doc, f'{seed}-{i}-{k}', {'addr': 'explicit'} if 'alias-shadow' in doc.classes else None)
         db, err = parse(text)
         if err is None:
             check(sh, doc, edges, db, 'parsed', suite, acyclic=not cyc)
